@@ -275,6 +275,8 @@ func (r *Reader) parseWorksheet(data []byte, name string, index int) (*Sheet, er
 	// Determine dimensions
 	maxRow := 0
 	maxCol := 0
+	populated := 0 // cells with a usable reference
+	const minCheckedGrid, maxGridAmplification = 1 << 18, 128
 
 	// First pass: find dimensions. Row and column numbers come from the file and size the grid:
 	// anything beyond what a worksheet can hold (ECMA-376: 1048576 rows, 16384 columns) is not a
@@ -295,7 +297,15 @@ func (r *Reader) parseWorksheet(data []byte, name string, index int) (*Sheet, er
 			if col > maxCol {
 				maxCol = col
 			}
+			populated++
 		}
+	}
+
+	// The grid built below is dense. A single stray cell far out (row 1048576 is legal) would make
+	// it millions of times larger than the data, so a sheet whose grid exceeds its populated cells
+	// by more than maxGridAmplification is refused instead of being allocated.
+	if grid := maxRow * (maxCol + 1); grid > minCheckedGrid && grid/maxGridAmplification > populated {
+		return nil, fmt.Errorf("worksheet %q is too sparse to load: %d cells in a %d x %d grid", name, populated, maxRow, maxCol+1)
 	}
 
 	sheet.MaxRow = maxRow - 1 // Convert to 0-indexed
